@@ -45,7 +45,7 @@ ASSUMPTIONS = [
     "with the death of the process, time is not modelled (the simulated kernel makes the clock tick 1 ms per "
     "spawn so that Process.started is strictly increasing in spawn order, as on a real machine)",
     "the comparable dicts are built by the Config model (C16 ties it to get_config); singleton, on_demand, "
-    "use_sockets, hooks and stream options are off (the driver answers out-of-domain otherwise), max_age is far "
+    "use_sockets and hooks are off (the driver answers out-of-domain otherwise; stream options are in: class / filename lines, each valid alone), max_age is far "
     "above the virtual duration of a reload",
     "files in which two watcher names are equal up to letter case are outside the model (Arbiter.get_watcher "
     "looks names up in lower case and the outcome depends on the hash seed); the oracle still judges them",
@@ -515,6 +515,12 @@ EXTRA_KEYS = {
     "color": ["red", "blue"],
     "rlimit_nofile": ["100", "200"],
     "rlimit_core": ["0", "10"],
+    # stream options: `stdout_stream.k = v` lines land in the nested dict cfg['stdout_stream'] that DictDiffer compares as a
+    # whole; the Watcher must keep its own copy (get_stream pops `class` from the dict it is given)
+    "stdout_stream.class": ["StdoutStream", "FancyStdoutStream"],
+    "stdout_stream.filename": ["/dev/null", "/dev/full"],
+    "stderr_stream.class": ["StdoutStream", "FancyStdoutStream"],
+    "stderr_stream.filename": ["/dev/null", "/dev/full"],
 }
 ENV_KEYS = ["A", "B", "PS1", "PROMPT_COMMAND", "Mode", "PATH2"]
 ENV_VALS = ["1", "2", "x y", "$HOME/bin", "pre-$USERX-post", " padded ", "/opt"]
